@@ -27,6 +27,26 @@ def crc24(data):
     return crc & 0xFFFFFF
 
 
+def armor_crc_line_malformed(doc):
+    """True when the first signature armor has a line "=...." whose base64 part is not exactly four characters decoding to three
+    bytes ("=LwA=", "=Lw==", "=ab"): a damaged checksum line that golang.org/x/crypto's armor reader skips instead of refusing"""
+    import base64
+    import binascii
+    m = re.search(rb"\n-----BEGIN PGP SIGNATURE-----\n(.*?)\n-----END PGP SIGNATURE-----", doc, re.S)
+    if not m:
+        return False
+    for line in m.group(1).split(b"\n"):
+        line = line.rstrip(b"\r \t")
+        if line.startswith(b"=") and len(line) > 1:
+            body = line[1:]
+            try:
+                if len(body) != 4 or len(base64.b64decode(body, validate=True)) != 3:
+                    return True
+            except (binascii.Error, ValueError):
+                return True
+    return False
+
+
 def armor_damaged(doc):
     """True when the FIRST signature armor of a clearsigned document has the plain RFC 4880 shape (base64 lines, one "=XXXX"
     checksum line, the END line) and its checksum does not match its data - judged here, without the library.  Anything
@@ -80,12 +100,29 @@ def run(chk):
     for pos in range(0, len(s0), step):
         # inside the signature armor several substitutions per position: which packet byte is hit (version, type,
         # public-key or hash algorithm id, length, MPI bits) decides how the library refuses the signature
-        for v in (vals if pos < sig0 else sorted(set(vals + [0x41, 0x2f, 0x66, 0x51, 0x2b, 0x39]))):
+        for v in (vals if pos < sig0 else sorted(set(vals + [0x41, 0x2f, 0x66, 0x51, 0x2b, 0x39, 0x3d]))):
             if s0[pos] != v:
                 cases.append(("csread", [b"0", s0[:pos] + bytes([v]) + s0[pos + 1:]])); tags.append("substitute")
         cases.append(("csread", [b"0", s0[:pos] + s0[pos + 1:]])); tags.append("delete")
         cases.append(("csread", [b"0", s0[:pos] + b"Z" + s0[pos:]])); tags.append("insert")
         cases.append(("csread", [b"0", s0[:pos]])); tags.append("truncate")
+    # the same kind of damage BEHIND the armor's checksum: a byte of the signature data replaced and the CRC-24 line recomputed, so
+    # that the armor is sound and the damaged packet reaches the signature check itself (version, type, algorithm ids, lengths,
+    # hashed area, MPIs)
+    import base64
+    am = re.search(rb"(-----BEGIN PGP SIGNATURE-----\n(?:[A-Za-z][^\n]*\n)*\n)((?:[A-Za-z0-9+/=]+\n)+?)=([A-Za-z0-9+/]{4})\n(-----END PGP SIGNATURE-----)", s0)
+    if am:
+        raw = bytearray(base64.b64decode(am.group(2).replace(b"\n", b"")))
+        for pos in list(range(0, min(len(raw), 40))) + list(range(40, len(raw), 7)):
+            for v in ((raw[pos] ^ 0x01), (raw[pos] + 1) & 0xff, 0x0b, 0x63, 0xff):
+                if v == raw[pos]:
+                    continue
+                r2 = bytes(raw[:pos]) + bytes([v]) + bytes(raw[pos + 1:])
+                b64 = base64.b64encode(r2)
+                body = b"".join(b64[i:i + 64] + b"\n" for i in range(0, len(b64), 64))
+                crc = base64.b64encode(crc24(r2).to_bytes(3, "big"))
+                doc = s0[:am.start()] + am.group(1) + body + b"=" + crc + b"\n" + am.group(4) + s0[am.end():]
+                cases.append(("csread", [b"0", doc])); tags.append("substitute-behind-the-checksum")
     # splices of foreign text before, inside and after the armor
     foreign = b"Source: evil\nVersion: 9\n"
     body_at = s0.index(b"Source: hello")
@@ -159,12 +196,18 @@ def run(chk):
             else:
                 signer = "x" + m[1][5].hex()
                 want = paras[m[1][3]]
-                if not im.startswith("ok signer=" + signer + " "):
+                if not want.startswith("ok ") and im == "ok-then-read-error":
+                    pass      # the signature verifies, and the signed text itself is no deb822 document (a field name starting with '-'): the read fails
+                elif not im.startswith("ok signer=" + signer + " "):
                     why = "the reported signer is not the entity whose key verified the signature"
                 elif want.startswith("ok ") and im.split(" ", 2)[2] != want[3:]:
                     why = "the paragraphs returned are not exactly those of the signed text"
         if kr != b"n" and im.startswith("ok") and armor_damaged(c[1][1]):
             why = "reading succeeded although the signature's armor is damaged (its CRC-24 line does not match its data)"
+        if kr != b"n" and im.startswith("ok signer") and armor_crc_line_malformed(c[1][1]):
+            chk.violate({"kind": "property", "class": "armor-crc-line-malformed", "case": lib.show_case(c), "impl": im[:300],
+                         "explanation": "reading succeeded although the checksum line of the signature armor is malformed (the armor reader of golang.org/x/crypto skips such a line)"})
+            continue
         if tag == "unsigned" and "signer=x" in im:
             why = "a signer is reported for unsigned input"
         if kr == b"n" and "signer=x" in im:
